@@ -22,6 +22,10 @@ Oracle readings (the weaker one wherever the statement leaves room, see DESIGN.m
   min(requested, available) (urwid lets the margins give way first, which is inside that range).
 * "split according to the percentage to within rounding": |left extra - spare*pct/100| < 1.
 * zero weights / zero given sizes: only "no negative / non-integer dimension, no crash" is asserted.
+* GridFlow "the configured cell width": the width in force when the grid is drawn - after `grid.cell_width = k` it
+  is k for every cell (the setter's docstring: "Setting this value affects all cells") - and "every cell in reading
+  order" is the current .contents; sub grid_hist drives one GridFlow through a history of re-configurations and
+  content changes and re-applies the construction-time oracle after every step.
 * "every combination of given, packed and weighted children" is a combination of *options*, however the
   caller wrote them down: constructor tuples (int / 'given' / WHSettings.GIVEN / legacy 'fixed', 'pack' / legacy
   'flow', 'weight' / bare widget), or (widget, options) entries put into .contents with a plain tuple of
@@ -59,14 +63,23 @@ RULE = (
     "calculate_left_right_padding and calculate_top_bottom_filler for "
     "every align kind (left/center/right, relative 0..100 step 5), given sizes 1..12, relative 0..100 step 5 with "
     "min None/1/3/6, clip, margins 0..5 x 0..5, sizes 1..30; Padding / Filler / Overlay rendered with a probe child "
-    "on reduced grids; GridFlow with <=7 cells, cell width 1..6, h_sep 0..2, v_sep 0..1, maxcol 1..30.  Hypothesis "
+    "on reduced grids; GridFlow with <=7 cells, cell width 1..6, h_sep 0..2, v_sep 0..1, maxcol 1..30; GridFlow "
+    "histories on ONE object (canvas cache not cleared between steps): every history of one or two ops out of 21 "
+    "(cell_width := 1/3/4/6, h_sep := 0/2, v_sep := 1, align := right, append a cell with its options written as "
+    "options() / options('given') / options(GIVEN, width) / ('given', width) / (WHSettings.GIVEN, width), insert "
+    "at 0 / 1, delete first / last, focus first / last, .contents re-assigned with the same entries rotated, the "
+    "backwards-compatible .cells setter) on grids of 1/3/5 cells (thorough also 2/7), cell width 2/4, h_sep 0/1, "
+    "focus first/last, drawn after the constructor and after every op at maxcol 5, 13 and as a fixed widget "
+    "(render(())); the oracle is the construction-time one applied to the model (cells in .contents order, each "
+    "min(current cell_width, maxcol) wide).  Hypothesis "
     "beyond those ranges (up to 8 children, sizes up to 200, weights incl. fractions, arbitrary percentages, a "
-    "spelling drawn per child).  "
+    "spelling drawn per child; GridFlow histories of up to 8 ops, cell widths up to 20, 1..3 sizes up to 120).  "
     "A configuration is one (widget options, size) pair; a case carries a size range so one case = many "
     "configurations (counted as class 'cfg:*').  Non-trivial: a column/row has to be dropped or the weighted "
     "space leaves a remainder (Columns/Pile); the requested size does not fit beside the margins or the spare "
     "space is not split evenly (Padding/Filler/Overlay); more than one grid row or a size below the cell width "
-    "(GridFlow)."
+    "(GridFlow); a history that re-configures the cell width or changes the cells and is drawn at a size where "
+    "some configured width needs more than one row (GridFlow histories)."
 )
 ASSUMPTIONS = [
     "probe children (Widget subclasses in this module) answer rows()/pack() deterministically from their spec and "
@@ -78,6 +91,12 @@ ASSUMPTIONS = [
     "the option spellings used are the ones the constructor docstrings / type hints, the contents docstrings and "
     "options() document, plus the constructor's backwards-compatible 'fixed' / 'flow' forms; children spelled "
     "through .contents are inserted after construction and the focus is then set with focus_position",
+    "GridFlow histories: 'the configured cell width' is read as the width in force when the grid is drawn (the "
+    "constructor argument or the last assignment to .cell_width, which its docstring says affects all cells); new "
+    "cells are added with options that name that same width (options() default or the width written out), so no "
+    "cell has a width of its own; nothing is asserted about h_sep / v_sep / align (assigning them is only a "
+    "perturbation) and the grid always keeps at least one cell; the deprecated .cells setter is used as documented "
+    "(its DeprecationWarning is not a sizing warning)",
 ]
 
 BOX, FLOW, FIXED = urwid.BOX, urwid.FLOW, urwid.FIXED
